@@ -196,7 +196,10 @@ void ebpps_sketch<T, A>::merge(ebpps_sketch<T, A>&& sk) {
 
 template<typename T, typename A>
 void ebpps_sketch<T, A>::merge(const ebpps_sketch<T, A>& sk) {
-  if (sk.get_cumulative_weight() > get_cumulative_weight()) {
+  if (&sk == this) {
+    // merging a sketch into itself: the sample is downsampled while it is read, so use a snapshot
+    internal_merge(ebpps_sketch(sk));
+  } else if (sk.get_cumulative_weight() > get_cumulative_weight()) {
     // need to swap this with sk to merge, so make a copy, swap,
     // and use that to merge
     ebpps_sketch sk_copy(sk);
